@@ -14,7 +14,9 @@ pub assume_specification [<Error as From<std::convert::Infallible>>::from] (k: s
 //@@ endif
 /// stand-in for `crate::error::Error` (a Box<ErrorKind> holding foreign error types); opaque here
 #[verifier::external_body] pub struct Error(Box<u8>);
+//@@ ifndef std_result_name
 pub type Result<T = ()> = std::result::Result<T, Error>;
+//@@ endif
 pub uninterp spec fn err_is_invalid_response(e: Error, k: InvalidResponseKind) -> bool;
 //@@ ifdef errorkind
 pub assume_specification[ <Error as From<InvalidResponseKind>>::from ](k: InvalidResponseKind) -> (r: Error)
